@@ -81,4 +81,23 @@ def programs():
     for (plabel, ptmpl) in positions[:8] + positions[14:20]:
         out.append({"program": ptmpl.replace("{A}", "t").replace("{{", "{").replace("}}", "}") + "\nt(X) :- e(X).", "tag": f"detect:{plabel}:arity0-vs-1"})
         out.append({"program": ptmpl.replace("{A}", "t(X,X)").replace("{{", "{").replace("}}", "}") + "\nt(X) :- e(X).\n#show t/2.", "tag": f"detect:{plabel}:arity2-vs-1"})
+    # function terms that are no atoms: tuple terms and comparison sides in the condition of a #show term, in rule
+    # bodies, heads and objectives (they are neither inputs nor outputs), and objectives with conditional literals
+    base = "{ assigned(T,S) : free(S) } 1 :- task(T).\nbusy(S) :- assigned(_,S).\n"
+    fterms = [
+        "#show clashes(K) : K = #count { pair(T,U) : assigned(T,slot(D,_)), assigned(U,slot(D,_)), T < U }.",
+        "#show morning(T) : assigned(T,S), S = slot(_,am), not late(T).",
+        "#show slot(T) : assigned(T,S), f(S) != g(T).",
+        "#show f(T,S) : assigned(T,S).",
+        "#show p(T) : assigned(T,S), #sum { 1,w(S) : late(T) } >= 0.",
+        "ok(T) :- assigned(T,S), S = slot(_,am).",
+        "ok(f(T)) :- assigned(T,g(S)).",
+        ":~ assigned(T,S), S = slot(D,_). [1@1,pair(T,D)]",
+        ":~ task(T), not assigned(T,S) : prio(S,_). [1@1,T]",
+        ":~ task(T), assigned(T,S) : prio(S,_). [1@1,T]",
+        ":- task(T), not assigned(T,S) : prio(S,_).",
+    ]
+    for ft in fterms:
+        out.append({"program": base + ft, "tag": "detect:function-terms-and-objective-conditions"})
+        out.append({"program": base + "#show assigned/2.\n" + ft, "tag": "detect:function-terms-and-objective-conditions:show-sig"})
     return out
